@@ -14,13 +14,14 @@ def T(k): return ('t', k)
 E = ('e',)
 
 class Fam:
-    def __init__(self, name, nt, terms, rules, state_cap, sit_cap, sample, maxlen=4, sentences=(), parse_prop='C01', note=''):
+    def __init__(self, name, nt, terms, rules, state_cap, sit_cap, sample, maxlen=4, sentences=(), parse_prop='C01', note='', texts=None):
         self.name, self.nt, self.terms, self.rules = name, nt, terms, rules            # terms: list of (prec, assoc) ; rules: (lhs, rhs, rprec|None)
         self.state_cap, self.sit_cap, self.sample, self.maxlen, self.sentences, self.parse_prop, self.note = state_cap, sit_cap, sample, maxlen, list(sentences), parse_prop, note
+        self.texts = texts   # None: one-byte char terms; else fixed-width string terms with these texts
 
 def plain(n): return [(0, 0)] * n
 
-def fam_terms(Tn, dense=False):
+def fam_terms(Tn, dense=False, strings=False):
     """Tn terminals; the terminals that FOLLOW a nonterminal (= lookaheads of reductions) are the highest-numbered ones, so
     lookahead indices cross the 64-bit word boundaries of the situation / FIRST bitsets; one rule uses the error symbol after a
     nonterminal (term index Tn+1). S -> A t | B t' ... ; A -> a | A b ; B -> c"""
@@ -35,7 +36,8 @@ def fam_terms(Tn, dense=False):
     sample = sorted(set([0, 1, 2, hi[0], hi[-1], hi[-2] if len(hi) > 1 else hi[0]]))
     sent = [[0] + [1] * k + [h] for h in hi for k in (0, 3)] + [[2, hi[-1], hi[0]], [0, 5 % Tn, 7 % Tn, hi[-1]]]
     if dense: sample = [0, 1, 2, 3, Tn - 1]
-    return Fam(('allterms%d' if dense else 'terms%d') % Tn, 3, plain(Tn), rules, (Tn + 40) if dense else 60, 4 * (Tn + 2) + 40, sample, 4, sent, note='%d terminals; reductions under lookaheads %s and the error symbol (index %d)' % (Tn, hi, Tn + 1))
+    texts = ['k%03d' % k for k in range(Tn)] if strings else None
+    return Fam(('allterms%d' if dense else 'sterms%d' if strings else 'terms%d') % Tn, 3, plain(Tn), rules, (Tn + 40) if dense else 60, 4 * (Tn + 2) + 40, sample, 4 if not strings else 3, sent, note='%d terminals; reductions under lookaheads %s and the error symbol (index %d)' % (Tn, hi if len(hi) < 12 else '(all)', Tn + 1), texts=texts)
 
 def fam_rules(Rn):
     """Rn rules; the last one (number Rn-1) is the ambiguous E -> E + E (unresolved S/R conflict, shift preferred), the one before
@@ -113,10 +115,10 @@ def families(tier='quick'):
          fam_prec([1, 2, 3, 4, 5, 6, 7, 8, 9], 'prec9levels'),
          fam_prec([INT_MIN, -70000, -32769, -1, 32767, 32768, 65536, 70000, INT_MAX], 'precwide'),
          fam_prec([-32768, 32768, 65535, 65537, 131072], 'prec16bit'),
-         fam_recover(63), fam_recover(129), fam_states(6, 64)]
+         fam_recover(63), fam_recover(129), fam_states(6, 64), fam_terms(258, strings=True), fam_long(257)]
     if tier != 'quick':
         F += [fam_terms(61), fam_terms(126), fam_terms(127), fam_terms(128), fam_terms(129), fam_terms(200), fam_terms(140, True), fam_terms(200, True),
-              fam_rules(254), fam_rules(255), fam_rules(258), fam_rules(300), fam_nterms(130), fam_long(65), fam_recover(65), fam_recover(200), fam_states(7, 64)]
+              fam_rules(254), fam_rules(255), fam_rules(258), fam_rules(300), fam_nterms(130), fam_long(65), fam_recover(65), fam_recover(200), fam_states(7, 64), fam_terms(300, dense=False, strings=True), fam_terms(520, strings=True), fam_long(300)]
     return F
 
 def sym_cpp(s):
@@ -126,12 +128,13 @@ def sym_dyn(s, f):
 
 def emit(f, out):
     Tn = len(f.terms)
-    assert Tn <= len(BYTES)
+    assert f.texts is not None or Tn <= len(BYTES)
     o = ['// generated by gen/scale_gen.py: family %s (%s)' % (f.name, f.note), '#include "scale_main.hpp"', 'using namespace ctpg;', '']
     for k in range(f.nt): o.append('constexpr nterm<int> n%d("N%d");' % (k, k))
     assoc = {0: 'associativity::no_assoc', 1: 'associativity::ltor', 2: 'associativity::rtol'}
     for k, (p, a) in enumerate(f.terms):
-        o.append('constexpr char_term t%d(char(0x%02x), %s, %s);' % (k, BYTES[k], ('(-2147483647 - 1)' if p == INT_MIN else str(p)), assoc[a]))
+        if f.texts is None: o.append('constexpr char_term t%d(char(0x%02x), %s, %s);' % (k, BYTES[k], ('(-2147483647 - 1)' if p == INT_MIN else str(p)), assoc[a]))
+        else: o.append('constexpr string_term t%d("%s", %s, %s);' % (k, f.texts[k], ('(-2147483647 - 1)' if p == INT_MIN else str(p)), assoc[a]))
     o.append('struct Lim { static const size_t state_count_cap = %d; static const size_t max_sit_count_per_state_cap = %d; };' % (f.state_cap, f.sit_cap))
     rl = []
     for i, (l, rhs, rp) in enumerate(f.rules):
@@ -143,16 +146,21 @@ def emit(f, out):
     o.append('using P = std::remove_pointer_t<decltype(make_p())>;')
     o.append('int main() {')
     o.append('    dyn::Gram g; g.NT = %d; g.T = %d;' % (f.nt, Tn))
-    o.append('    static const unsigned char tb[] = {%s};' % ', '.join('0x%02x' % BYTES[k] for k in range(Tn)))
+    if f.texts is None: o.append('    static const unsigned char tb[] = {%s};' % ', '.join('0x%02x' % BYTES[k] for k in range(Tn)))
+    else: o.append('    static const char* const tx[] = {%s};' % ', '.join('"%s"' % t for t in f.texts))
     o.append('    static const long long tp[] = {%s}; static const int ta[] = {%s};' % (', '.join('%dLL' % p if p != INT_MIN else '(-2147483647LL - 1)' for p, a in f.terms), ', '.join(str(a) for p, a in f.terms)))
-    o.append('    for (int k = 0; k < g.T; ++k) { char nm[8]; if (tb[k] > 32 && tb[k] < 127) std::snprintf(nm, sizeof nm, "%c", tb[k]); else std::snprintf(nm, sizeof nm, "\\\\x%02X", tb[k]); g.tname.push_back(nm); g.tprec.push_back(tp[k]); g.tassoc.push_back(ta[k]); }')
+    if f.texts is None:
+        o.append('    for (int k = 0; k < g.T; ++k) { char nm[8]; if (tb[k] > 32 && tb[k] < 127) std::snprintf(nm, sizeof nm, "%c", tb[k]); else std::snprintf(nm, sizeof nm, "\\\\x%02X", tb[k]); g.tname.push_back(nm); g.tprec.push_back(tp[k]); g.tassoc.push_back(ta[k]); }')
+    else: o.append('    for (int k = 0; k < g.T; ++k) { g.tname.push_back(tx[k]); g.tprec.push_back(tp[k]); g.tassoc.push_back(ta[k]); }')
     o.append('    for (int k = 0; k < g.NT; ++k) g.ntname.push_back("N" + std::to_string(k));')
     for (l, rhs, rp) in f.rules:
         body = '{%s}' % ', '.join(sym_dyn(s, f) for s in rhs)
         o.append('    g.rule%s(%d, std::vector<int>%s%s);' % ('_p' if rp is not None else '', l, body, (', %dLL' % rp if rp != INT_MIN else ', (-2147483647LL - 1)') if rp is not None else ''))
     o.append('    g.finish();')
     o.append('    scale::Config cfg; cfg.family = "%s"; cfg.parse_prop = "%s"; cfg.maxlen = %d;' % (f.name, f.parse_prop, f.maxlen))
-    o.append('    cfg.term_byte.assign(tb, tb + g.T); cfg.sample = {%s};' % ', '.join(str(s) for s in f.sample))
+    if f.texts is None: o.append('    for (int k = 0; k < g.T; ++k) cfg.term_text.push_back(std::string(1, char(tb[k])));')
+    else: o.append('    for (int k = 0; k < g.T; ++k) cfg.term_text.push_back(tx[k]);')
+    o.append('    cfg.sample = {%s};' % ', '.join(str(s) for s in f.sample))
     for s in f.sentences: o.append('    cfg.sentences.push_back({%s});' % ', '.join(str(x) for x in s))
     o.append('    return scale::run<P>(&make_p, g, cfg);')
     o.append('}')
